@@ -242,7 +242,10 @@ class Wire:
         a = Attempt(len(self.attempts), host, port, self.loop.time())
         self.attempts.append(a)
         p = port.v if isinstance(port, Box) else port
-        usable = (p >= 1) & (p <= 65535) if isinstance(p, (SWord, SInt)) else (1 <= p <= 65535)
+        if p is None:
+            usable = False          # (host, None): nothing to connect to
+        else:
+            usable = (p >= 1) & (p <= 65535) if isinstance(p, (SWord, SInt)) else (1 <= p <= 65535)
         if not bool(usable):
             a.outcome, a.t_end = 'badport', self.loop.time()
             raise OSError('port unusable (0 or beyond 65535)')
